@@ -29,6 +29,7 @@ META["text"] += ' R6 also borrows the CVR-side style filter of C06.R4 and C06.R1
 META["text"] += ' R6 also: the data mvrs_to_data returns are the array of B values as built (not clipped, rounded, re-bound or written into).'
 META["text"] += ' R1 also: B, omega and the mean keep no state between calls (no cache of an earlier margin or record).'
 META["text"] += ' R3 also: set_all_margins_from_cvrs hands the CVR list on as given (not de-duplicated or filtered).'
+META["text"] += ' (R7, N, frame condition on arguments) overstatements are computed from the two records, which stay as they are: every function in scope changes the objects it is handed only in the ways confirmed for it (aud.ARG_EFFECTS); references are followed through aliases, elements, attributes, loop variables, .get/.items/.values and np.asarray, resolved by the bindings that reach the use.'
 
 SPEC_OMEGA = '''
 def spec(self, mvr, cvr, use_style):
@@ -52,6 +53,9 @@ def spec(self, mvr, cvr, use_style):
 
 
 def run(chk):
+    from .. import aud as _aud8
+    _aud8.argument_effects(chk, 'C03.R7', 'shangrla/core/Audit.py', 'overstatements are computed from the two records, which stay as they are', only=lambda q: q.startswith('Assertion.'))
+    _aud8.argument_effects(chk, 'C03.R7', 'shangrla/core/Audit.py', 'overstatements are computed from the two records, which stay as they are', only=lambda q: q.startswith('Assorter.'))
     idx = chk.idx
     chk.explain(
         "R1: Assertion.overstatement_assorter, with Assorter.overstatement inlined through the resolved call (argument "
